@@ -27,8 +27,9 @@ def main() -> int:
         path = sys.argv[sys.argv.index("--replay") + 1]
         return mod.replay(ctx, json.load(open(path)))
     verdict = vlib.Verdict(ctx)
-    targets = getattr(mod, "COQ_TARGETS", [f"Properties/{pid}.vo"])
+    targets = sorted(set(getattr(mod, "COQ_TARGETS", [])) | set(vlib.auto_targets(pid)))
     build = vlib.translate_and_make(targets)
+    vlib.scope_translation_errors(pid, build)
     proc = vlib.start_property_file(pid, build, ctx.work)
     ev = {"coverage": {}, "assumptions": []}
     try:
